@@ -16,7 +16,7 @@ func jsonUnmarshal(b []byte, v any) error {
 // remove the addressed property, write it back; everything the statement does not fix is silent.
 func SubdocSpec(pre Doc, cas uint64, insert bool, path string, raw []byte) Expect {
 	parts := strings.Split(path, ".")
-	casFail := Expect{Succeeds: No, OutcomeProp: "C02", FailClasses: []string{"casmismatch", "missing"}}
+	casFail := Expect{Succeeds: No, OutcomeProp: "C02,C18", FailClasses: []string{"casmismatch", "missing"}}
 	if !pre.Live {
 		if insert {
 			return Expect{Succeeds: No, OutcomeProp: "C18", FailClasses: []string{"missing"}}
